@@ -102,3 +102,109 @@ package tracer
 //@           invariant slicebase(data) == slicebase(old(data)) && sliceoff(data) >= sliceoff(old(data)) && sliceoff(data) + len(data) == sliceoff(old(data)) + len(old(data))
 //@           invariant len(data) > 0 ==> slicebase(data) != slicebase(d.prefix)
 //@           invariant unchangedArray(data)
+
+// emitUnfinished: at most one final partial event carrying the bytes actually seen (prefix
+// bytes, or payload bytes of the open envelope); afterwards the machine is idle.
+//@ func (*dataTracer).emitUnfinished
+//@   requires wfTracer(d) && !held[d.mu]
+//@   modifies held, dataTracer.prefix, dataTracer.env, dataTracer.expecting, dataTracer.actual, dataTracer.endStream,
+//@            evN, evKind, evLen, evEnv, builder.*, RequestBodyData.*, ResponseBodyData.*, eventOffset.*, []Event, http.Request.*
+//@   ensures wfTracer(d) && !held[d.mu]
+//@   ensures @idle d.expecting == 0 && d.actual == 0 && len(d.prefix) == 0 && d.env == nil && d.endStream == nil
+//@   ensures @atmostone evN[d.builder] >= old(evN[d.builder]) && evN[d.builder] <= old(evN[d.builder]) + 1
+//@   ensures forall o *builder :: o != d.builder ==> evN[o] == old(evN[o])
+//@   ensures @partial-prefix old(d.isStreamProtocol) && old(d.expecting) == 0 && old(len(d.prefix)) > 0 ==>
+//@        evN[d.builder] == old(evN[d.builder]) + 1 && evLen[d.builder][old(evN[d.builder])] == old(len(d.prefix)) &&
+//@        evKind[d.builder][old(evN[d.builder])] == (d.isRequest ? 1 : 2) && evEnv[d.builder][old(evN[d.builder])] == nil
+//@   ensures @partial-payload old(d.isStreamProtocol) && old(d.expecting) > 0 && old(d.actual) > 0 ==>
+//@        evN[d.builder] == old(evN[d.builder]) + 1 && evLen[d.builder][old(evN[d.builder])] == old(d.actual) &&
+//@        evKind[d.builder][old(evN[d.builder])] == (d.isRequest ? 1 : 2) && evEnv[d.builder][old(evN[d.builder])] == old(d.env)
+//@   ensures @nothing-pending old(d.isStreamProtocol) && old(d.expecting) == 0 && old(len(d.prefix)) == 0 ==> evN[d.builder] == old(evN[d.builder])
+
+// whenDone callbacks (a no-op for requests, the context's cancel function for responses)
+// have no synchronous effect on tracer state.
+//@ func tracingReader.whenDone
+//@   trusted
+//@   modifies nothing
+
+// tryFinish: the first call closes the body exactly once: the unfinished tail (if any) and then
+// one body-end event; later calls do nothing.
+//@ func (*tracingReader).tryFinish
+//@   requires t != nil && t.builder != nil && t.whenDone != nil && wfTracer(t.dataTracer) && !held[t.dataTracer.mu] && t.dataTracer.builder == t.builder
+//@   modifies atomicBoolV, held, dataTracer.prefix, dataTracer.env, dataTracer.expecting, dataTracer.actual, dataTracer.endStream,
+//@            evN, evKind, evLen, evEnv, builder.*, RequestBodyData.*, ResponseBodyData.*, RequestBodyEnd.*, ResponseBodyEnd.*, eventOffset.*, []Event, http.Request.*
+//@   ensures atomicBoolV[t.closed] && wfTracer(t.dataTracer) && !held[t.dataTracer.mu]
+//@   ensures @once old(atomicBoolV[t.closed]) ==> evN[t.builder] == old(evN[t.builder])
+//@   ensures @bodyend !old(atomicBoolV[t.closed]) ==> evN[t.builder] >= old(evN[t.builder]) + 1 && evN[t.builder] <= old(evN[t.builder]) + 2 &&
+//@        evKind[t.builder][evN[t.builder] - 1] == (t.isRequest ? 4 : 5)
+
+// Read: the caller gets exactly what the wrapped reader returned - same count, same error,
+// same bytes - and the bytes read are handed to the tracer.
+//@ func (*tracingReader).Read
+//@   requires t != nil && t.reader != nil && t.builder != nil && t.whenDone != nil && wfTracer(t.dataTracer) && !held[t.dataTracer.mu] && t.dataTracer.builder == t.builder
+//@   requires slicebase(data) != slicebase(t.dataTracer.prefix) //# the tracer's private prefix buffer is not the caller's buffer
+//@   modifies []byte, lastReadN, lastReadErr, lastReadArr, atomicBoolV, held, dataTracer.prefix, dataTracer.env, dataTracer.expecting, dataTracer.actual, dataTracer.endStream,
+//@            Envelope.*, bufContent, evN, evKind, evLen, evEnv, builder.*, RequestBodyData.*, ResponseBodyData.*, ResponseBodyEndStream.*, RequestBodyEnd.*, ResponseBodyEnd.*, eventOffset.*, []Event, http.Request.*
+//@   ensures @passthrough n == lastReadN[t.reader] && err == lastReadErr[t.reader] && arrayof(data) == lastReadArr[t.reader]
+//@   ensures wfTracer(t.dataTracer) && !held[t.dataTracer.mu]
+//@   ensures @closed-on-error err != nil ==> atomicBoolV[t.closed]
+
+//@ func (*tracingReader).Close
+//@   requires t != nil && t.reader != nil && t.builder != nil && t.whenDone != nil && wfTracer(t.dataTracer) && !held[t.dataTracer.mu] && t.dataTracer.builder == t.builder
+//@   modifies atomicBoolV, held, dataTracer.prefix, dataTracer.env, dataTracer.expecting, dataTracer.actual, dataTracer.endStream,
+//@            evN, evKind, evLen, evEnv, builder.*, RequestBodyData.*, ResponseBodyData.*, RequestBodyEnd.*, ResponseBodyEnd.*, eventOffset.*, []Event, http.Request.*
+//@   ensures atomicBoolV[t.closed]
+
+//@ func GetDecompressor
+//@   modifies nothing
+// a body is traced as an envelope stream exactly for Connect streaming and gRPC(-Web) content
+// types, and never when the whole body is content-encoded
+//@ func propertiesFromHeaders
+//@   modifies nothing
+//@   ensures isStream == (!(has(headers, canonKey("Content-Encoding")) && len(headers[canonKey("Content-Encoding")]) > 0 && headers[canonKey("Content-Encoding")][0] != "") &&
+//@       (hasPrefix(strLower((has(headers, canonKey("Content-Type")) && len(headers[canonKey("Content-Type")]) > 0) ? headers[canonKey("Content-Type")][0] : ""), "application/connect") ||
+//@        hasPrefix(strLower((has(headers, canonKey("Content-Type")) && len(headers[canonKey("Content-Type")]) > 0) ? headers[canonKey("Content-Type")][0] : ""), "application/grpc")))
+
+// ---- response writer side ----
+
+//@ spec wfWriter(t *tracingResponseWriter) bool = t != nil && t.respWriter != nil && t.req != nil && t.builder != nil && (t.finished ==> t.started) &&
+//@    (t.started ==> wfTracer(t.dataTracer) && t.dataTracer.builder == t.builder && t.resp != nil && t.resp.Trailer != nil)
+
+//@ func (*tracingResponseWriter).WriteHeader
+//@   requires wfWriter(t) && !held[t.dataTracer.mu]
+//@   modifies tracingResponseWriter.*, dataTracer.*, http.Response.*, map[string][]string, []string, bufContent,
+//@            evN, evKind, evLen, evEnv, builder.*, eventOffset.*, []Event, http.Request.*, ResponseStart.*, RequestBodyData.*, ResponseBodyData.*
+//@   ensures wfWriter(t) && t.started && !held[t.dataTracer.mu] && t.finished == old(t.finished)
+//@   ensures @stable t.respWriter == old(t.respWriter) && t.req == old(t.req) && t.builder == old(t.builder)
+//@   ensures @ownbuffer old(t.started) ? t.dataTracer.prefix == old(t.dataTracer.prefix) : t.dataTracer.prefix == nil
+//@   ensures @once old(t.started) ==> evN[t.builder] == old(evN[t.builder])
+//@   ensures evN[t.builder] >= old(evN[t.builder])
+//@   ensures @idle !old(t.started) ==> t.dataTracer.expecting == 0 && len(t.dataTracer.prefix) == 0 && t.dataTracer.actual == 0 && !t.dataTracer.isRequest
+
+//@ func (*tracingResponseWriter).setTrailers
+//@   option weakrange
+//@   requires wfWriter(t) && t.started
+//@   modifies map[string][]string, []string
+
+// Write: the caller gets exactly the wrapped writer's count and error; the bytes written are
+// handed to the tracer and never modified.
+//@ func (*tracingResponseWriter).Write
+//@   requires wfWriter(t) && !held[t.dataTracer.mu]
+//@   requires slicebase(data) != slicebase(t.dataTracer.prefix) //# the tracer's private prefix buffer is not the caller's buffer
+//@   modifies tracingResponseWriter.*, dataTracer.*, http.Response.*, map[string][]string, []string, []byte, bufContent, Envelope.*, held, lastWriteN, lastWriteErr,
+//@            evN, evKind, evLen, evEnv, builder.*, eventOffset.*, []Event, http.Request.*, ResponseStart.*, RequestBodyData.*, ResponseBodyData.*, ResponseBodyEndStream.*, ResponseBodyEnd.*
+//@   ensures @passthrough result_0 == lastWriteN[t.respWriter] && result_1 == lastWriteErr[t.respWriter]
+//@   ensures @untouched unchangedArray(data)
+//@   ensures wfWriter(t) && t.started && !held[t.dataTracer.mu]
+//@   ensures @finished-on-error result_1 != nil ==> t.finished
+
+// tryFinish: the first call finishes the response exactly once (unfinished tail, trailers,
+// one body-end event); later calls do nothing.
+//@ func (*tracingResponseWriter).tryFinish
+//@   requires wfWriter(t) && !held[t.dataTracer.mu]
+//@   modifies tracingResponseWriter.*, dataTracer.*, http.Response.*, map[string][]string, []string, bufContent, held,
+//@            evN, evKind, evLen, evEnv, builder.*, eventOffset.*, []Event, http.Request.*, ResponseStart.*, RequestBodyData.*, ResponseBodyData.*, ResponseBodyEnd.*
+//@   ensures t.finished && t.started && wfWriter(t) && !held[t.dataTracer.mu]
+//@   ensures @stable t.respWriter == old(t.respWriter) && t.req == old(t.req) && t.builder == old(t.builder)
+//@   ensures @once old(t.finished) ==> evN[t.builder] == old(evN[t.builder])
+//@   ensures @bodyend !old(t.finished) ==> evN[t.builder] >= old(evN[t.builder]) + 1 && evKind[t.builder][evN[t.builder] - 1] == 5
